@@ -4,9 +4,12 @@
    not: the code does not test exportedness) with the name's index, whether the name matches
    secretRE = (?i)(token|pass|jwt|hash|secret|bearer|cred|secure|signing|cert|code|key)
    (computed by the harness with strings.Contains on the lower-cased name, not with the regexp), and the
-   coerce tag.  Types are finite trees: recursive types (type T struct{ Next *T }) are not expressible;
-   for them the code has the [seen] set, which for a tree-shaped type only skips a struct type whose first
-   complete visit returned nil, and so does not change the result. *)
+   coerce tag.  Types are finite trees.  For a tree-shaped type the code's [seen] set only skips a struct type
+   whose first complete visit returned nil, and so does not change the result.  A recursive type
+   (type T struct{ Next *T }) is handed over by the harness unfolded along each path until a struct type
+   repeats, the repeat cut to a field-less type: the code visits every struct type reachable through
+   struct / pointer nesting exactly once and errs iff one of them has an offending field, and each of them
+   is expanded at least once in that unfolding, so the verdicts coincide. *)
 From Coercion.Secure Require Import GoVal.
 
 Record tmeta := { t_name : N; t_secretish : bool; t_tag : tag }.
